@@ -53,7 +53,7 @@ func c03Delivered(r *R) {
 						continue
 					}
 					in, ok := leaf.(ssa.Instruction)
-					if !ok || !(c.Block() == in.Block() && Before(c.(ssa.Instruction), in) || c.Block() != in.Block() && c.Block().Dominates(in.Block())) {
+					if !ok || !(c.Block() == in.Block() && Before(c.(ssa.Instruction), in) || c.Block() != in.Block() && Precedes(c, in)) {
 						continue // the EOF of the bounds test before any read
 					}
 					n++
